@@ -161,7 +161,7 @@ func (nd *ndArrayTypeC) MustReshape(newShape []int) data.NDArrayType {
 	return result
 }
 
-func (nd *ndArrayTypeC) Get1(loc int) data.ArrayType {
+func (nd *ndArrayTypeC) index1(loc int) []int {
 	var idx []int
 
 	if len(nd.Dims) == 1 {
@@ -176,11 +176,15 @@ func (nd *ndArrayTypeC) Get1(loc int) data.ArrayType {
 		}
 		//		fmt.Println("nDims>1",idx,nd.Dims,loc)
 	}
-	return nd.Get(idx)
+	return idx
+}
+
+func (nd *ndArrayTypeC) Get1(loc int) data.ArrayType {
+	return nd.Get(nd.index1(loc))
 }
 
 func (nd *ndArrayTypeC) Set1(loc int, val data.ArrayType) {
-	nd.Set([]int{loc}, val)
+	nd.Set(nd.index1(loc), val)
 }
 
 func (nd *ndArrayTypeC) Apply1(loc int, step int, vals []data.ArrayType) {
